@@ -2,14 +2,19 @@
 Model of the worker's `select!` loop as far as the control-plane readers are concerned
 (`wtransport/src/driver/mod.rs`, `run_impl` / `run_control_streams`).
 
-The futures that read the remote control stream and the session (CONNECT) stream are created
-anew in every iteration of the loop. Inside one iteration a reader keeps its progress across
-`Pending`s (Props/C15: it then equals the one-shot parse). When ANOTHER branch of the `select!`
-completes — a datagram, a new stream, a preamble task posting to the hand-off queues, the
-settings watcher firing because SETTINGS was just parsed, a session being registered — the
-iteration ends and the reader future is dropped: the bytes it had consumed of a frame that was
-not yet complete are gone from the QUIC stream and from memory. The next iteration starts a
-fresh reader in the middle of that frame.
+The futures of `RemoteSettingsStream::run` and `ConnectStream::run` are created anew in every
+iteration of the loop. Inside one iteration a reader keeps its progress across `Pending`s
+(Props/C15: it then equals the one-shot parse). When ANOTHER branch of the `select!` completes —
+a datagram, a new stream, a preamble task posting to the hand-off queues, the settings watcher
+firing because SETTINGS was just parsed, a session being registered — the iteration ends and the
+future of `run` is dropped. What happens to a frame read in progress then depends on where that
+read lives, a structural fact the translator extracts (`Generated.CONTROL_READ_PERSISTS_*`):
+
+* `persist = true` (the tree after `fix:` D5): the read in progress is a boxed future stored in
+  the stream holder; dropping `run`'s future leaves it, and its progress, alone;
+* `persist = false` (the pinned tree): the read was part of `run`'s future, and the bytes it had
+  consumed of a frame not yet complete were gone with it; the next iteration started a fresh
+  reader in the middle of that frame.
 
 `Piece`: the bytes of the stream that arrive together, and whether another branch completes
 before the next bytes arrive.
@@ -39,26 +44,27 @@ def leftover (bs : Bytes) : Bytes := leftoverOf (bs.length + 1) bs
 
 /-- the bytes the restarting readers actually interpret: `done` = bytes of completed frames so
 far, `carry` = progress of the live reader -/
-def effectiveFrom : List Piece → Bytes → Bytes → Bytes
+def effectiveFrom (persist : Bool) : List Piece → Bytes → Bytes → Bytes
   | [], done, carry => done ++ carry
   | p :: ps, done, carry =>
     let avail := carry ++ p.bytes
     let left := leftover avail
     let whole := avail.take (avail.length - left.length)
-    if p.otherBranchAfter && !left.isEmpty then
-      effectiveFrom ps (done ++ whole) []         -- future dropped: `left` is lost
-    else effectiveFrom ps (done ++ whole) left
+    if !persist && p.otherBranchAfter && !left.isEmpty then
+      effectiveFrom persist ps (done ++ whole) []         -- read dropped with `run`: `left` is lost
+    else effectiveFrom persist ps (done ++ whole) left
 
-def effective (ps : List Piece) : Bytes := effectiveFrom ps [] []
+def effective (persist : Bool) (ps : List Piece) : Bytes := effectiveFrom persist ps [] []
 
 def whole (ps : List Piece) : Bytes := (ps.map (·.bytes)).flatten
 
-/-- outcome of the session stream under the pinned select loop -/
-def sessionOutcome (ps : List Piece) (t : Tail) : Option DriverError := Worker.connectRun (effective ps) t
+/-- outcome of the session stream under the select loop -/
+def sessionOutcome (persist : Bool) (ps : List Piece) (t : Tail) : Option DriverError :=
+  Worker.connectRun (effective persist ps) t
 
-/-- outcome of the remote control stream under the pinned select loop -/
-def controlOutcome (ps : List Piece) (t : Tail) : Option Settings × Option DriverError :=
-  Worker.controlRun (effective ps) t none
+/-- outcome of the remote control stream under the select loop -/
+def controlOutcome (persist : Bool) (ps : List Piece) (t : Tail) : Option Settings × Option DriverError :=
+  Worker.controlRun (effective persist ps) t none
 
 /-- no reader is dropped while it holds progress -/
 def TearFree : List Piece → Bytes → Prop
